@@ -68,6 +68,12 @@ def cases(tier):
     for ci in range(len(CONFIGS)):
         for wd in WDS:
             yield (ci, wd, tier)
+    for ci in _RESULT_CONFIGS():
+        yield ("cross", ci, tier)
+
+
+def _RESULT_CONFIGS():
+    return [i for i, c in enumerate(CONFIGS) if (isinstance(c[0], tuple) and (c[0][0] == "Result" or (c[0][0] == "List" and isinstance(c[0][1], tuple) and c[0][1][0] == "Result")))]
 
 
 def _make_param(cfg):
@@ -90,6 +96,19 @@ def _make_param(cfg):
 
 
 _CTX = {}
+_SPEC = {}
+
+
+def _fresh_commands(p):
+    """replace the commands of the context program by fresh command objects (same names, same finished/unfinished pattern)"""
+    lib = _SPEC["lib"]
+    spec = {"nf_fin": ("ConstNF", True), "fz_fin": ("ConstFZ", True), "nf_un": ("ConstNF", False), "fz_un": ("ConstFZ", False),
+            "ech_fin": ("Echo", True), "ech_un": ("Echo", False), "noout_un": ("NoOut", False)}
+    p.commands = {}
+    for name, (cls, fin) in spec.items():
+        p.add_command(lib[cls], name, {"Key": "arr"} if cls.startswith("Const") else {})
+        if fin:
+            p.commands[name].run()
 
 
 def _context(wdname):
@@ -105,6 +124,7 @@ def _context(wdname):
     wd = {"none": None, "abs": base, "rel": os.path.relpath(base)}[wdname]
     p = Program(libraries=LIBS, working_dir=wd)
     lib = p.command_library
+    _SPEC["lib"] = lib
     spec = {"nf_fin": ("ConstNF", True), "fz_fin": ("ConstFZ", True), "nf_un": ("ConstNF", False), "fz_un": ("ConstFZ", False),
             "ech_fin": ("Echo", True), "ech_un": ("Echo", False), "noout_un": ("NoOut", False)}
     for name, (cls, fin) in spec.items():
@@ -211,7 +231,40 @@ def _matches(exp, res, p):
     return True
 
 
+def _run_cross(case):
+    """histories over DIFFERENT parameter objects sharing one program: clean(a) by parameter A, then clean(b) by parameter B; the second
+    outcome must equal the outcome on a fresh program (commands must not remember earlier validations)"""
+    _, ci, tier = case
+    p, ctx, base = _context("abs")
+    refs = [i for i, r in enumerate(RAWS) if (r[0] == "cmd") or (r[0] == "str" and r[1] in ctx["commands"]) or
+            (r[0] == "list" and r[1] and all(x[0] in ("cmd", "str") and x[1] in ctx["commands"] for x in r[1]))]
+    viols = []
+    states = transitions = 0
+    cfgB = CONFIGS[ci]
+    fresh = {}
+    for b in refs:
+        _fresh_commands(p)
+        fresh[b] = _fz(_clean(_make_param(cfgB), _mk(RAWS[b], p, base), p))
+    for ca in _RESULT_CONFIGS():
+        cfgA = CONFIGS[ca]
+        for a in refs:
+            for b in refs:
+                _fresh_commands(p)
+                _clean(_make_param(cfgA), _mk(RAWS[a], p, base), p)
+                rb = _fz(_clean(_make_param(cfgB), _mk(RAWS[b], p, base), p))
+                states += 1
+                transitions += 2
+                if rb != fresh[b]:
+                    viols.append(V("C20:%s:depends-on-earlier-validation" % cfgB[1], "%s%r.clean(%r) gave %r after %s%r.clean(%r) on the same program, %r on a fresh program" % (
+                        cfgB[1], cfgB[2], RAWS[b], rb, cfgA[1], cfgA[2], RAWS[a], fresh[b]), history=[repr(cfgA), repr(RAWS[a]), repr(cfgB), repr(RAWS[b])]))
+    _fresh_commands(p)
+    return {"evals": transitions, "nontrivial": states, "judged": states, "viols": viols[:40], "states": states, "transitions": transitions,
+            "outcomes": {"cross:%s" % ("ok" if not viols else "bad"): 1}, "sample": {"second_parameter": repr(cfgB), "histories": states}}
+
+
 def run(case):
+    if case[0] == "cross":
+        return _run_cross(tuple(case))
     ci, wdname, tier = case
     cfg = CONFIGS[ci]
     kind = cfg[0]
